@@ -127,7 +127,7 @@ Dim(k) ==
       [] Family = "key_caps"     -> IF k <= 3 THEN <<Len(KeyLens), 3, Len(KeyCaps)>>[k] ELSE 0
       [] Family = "key_chain"    -> IF k <= 4 THEN <<Len(KeyChainSecrets), Len(KeyDates), Len(KeyNames), Len(KeyNames)>>[k] ELSE 0
       [] Family = "hval"         -> IF k <= Bound THEN Len(HvalSigma) ELSE 0
-      [] Family = "foldsize"     -> IF k <= 2 THEN <<Len(FoldSizes), Len(FoldPaths)>>[k] ELSE 0
+      [] Family = "foldsize"     -> IF k <= 3 THEN <<Len(FoldSizes), Len(FoldPaths), 2>>[k] ELSE 0
       [] Family = "errtable"     -> IF k <= 2 THEN <<Len(ErrKinds), Len(ErrVias)>>[k] ELSE 0
       [] Family = "builders"     -> IF k = 1 THEN 1 ELSE 0
       [] Family = "leakfn"       -> IF k = 1 THEN Len(LeakSecrets) ELSE 0
@@ -206,7 +206,7 @@ Case ==
              region |-> KeyNames[idx[3]], service |-> KeyNames[idx[4]]]
       [] Family = "hval" ->
             [op |-> "hval", v |-> [i \in 1..Len(idx) |-> HvalSigma[idx[i]]]]
-      [] Family = "foldsize" -> [op |-> "foldsize", n |-> FoldSizes[idx[1]], path |-> FoldPaths[idx[2]]]
+      [] Family = "foldsize" -> [op |-> "foldsize", n |-> FoldSizes[idx[1]], path |-> FoldPaths[idx[2]], fold |-> Bool(idx[3])]
       [] Family = "errtable" -> [op |-> "err", kind |-> ErrKinds[idx[1]], via |-> ErrVias[idx[2]]]
       [] Family = "builders" -> [op |-> "builders"]
       [] Family = "leakfn" -> [op |-> "leakfn", secret |-> LeakSecrets[idx[1]]]
